@@ -897,7 +897,7 @@ class Interp:
         return [(st, mk_obj("%s(%s)" % (label, ", ".join(show(a) for a in actual))))]
 
     def inline_call(self, st, callee, args):
-        sub = Interp(self.facts, self.assume, self.inline, self.max_paths, self.max_visits, sym_names=self.sym_names)
+        sub = type(self)(self.facts, self.assume, self.inline, self.max_paths, self.max_visits, sym_names=self.sym_names)
         sub._fresh = self._fresh + 1000
         s0 = st.copy()
         s0.locals = {}
